@@ -176,12 +176,13 @@ theorem satGang_gangs (s : State) (id : GangId) : (satGang s id).gangs = s.gangs
   unfold satGang
   split <;> rfl
 
-theorem applyCfg_meta (g : Gang) (c : Cfg) (b : Bool) : (applyCfg g c b).id = g.id ∧ (applyCfg g c b).ps = g.ps :=
+theorem applyCfg_meta (d : Nat) (g : Gang) (c : Cfg) (b : Bool) :
+    (applyCfg d g c b).id = g.id ∧ (applyCfg d g c b).ps = g.ps :=
   ⟨rfl, rfl⟩
 
 theorem sim_pgApply (s : State) (id : GangId) (c : Cfg) : Sim s.gangs (pgApply s id c).gangs := by
   unfold pgApply
-  exact (sim_updGang_meta s.gangs id _ (fun g => applyCfg_meta g c false)).trans (sim_attachInfo _ id)
+  exact (sim_updGang_meta s.gangs id _ (fun g => applyCfg_meta s.dflt g c false)).trans (sim_attachInfo _ id)
 
 theorem mem_of_findGang {gs : List Gang} {id : GangId} {g : Gang} (h : findGang gs id = some g) :
     g ∈ gs ∧ g.id = id := by
